@@ -150,7 +150,7 @@ class BaseNode(Node):
             typed.code, typed.source, typed.units_raw = node.code, node.source, node.units_raw
             typed.value_fn, typed.value_expr = node.value_fn, node.value_expr
             typed.parse(env)
-            node.value_raw = typed.value_raw
+            node.value_raw, node.value_fn, node.value_expr = typed.value_raw, typed.value_fn, typed.value_expr
         if not self.value:  # create a dummy value if none
             self.set_value(node.value_raw)
         # copy value type modify values and units
